@@ -746,10 +746,45 @@ func genC14(g *gctx) {
 			}
 			continue
 		}
+		if r.Chance(12) {
+			g.splitMessage()
+			continue
+		}
 		g.wellFormed(true)
 	}
 	g.emit(fmt.Sprintf("ping n=%d", 2000000+r.Intn(1000000)))
 	g.emit("close")
+}
+
+// splitMessage sends one well-formed message in two pieces that reach the node in separate reads (the harness
+// waits until the first piece is consumed and the node waits for more): a segment boundary anywhere in the 24-byte
+// header - inside the magic, the command, the length, the checksum - or in the payload must not matter.
+func (g *gctx) splitMessage() {
+	r := g.r
+	var f []byte
+	switch r.Intn(4) {
+	case 0:
+		p := make([]byte, r.Intn(60))
+		for i := range p {
+			p[i] = byte(r.Next())
+		}
+		f = frame("foo", p, nil)
+	case 1:
+		f = frame("getaddr", nil, nil)
+	case 2:
+		f = frame("sendheaders", nil, nil)
+	case 3:
+		f = frame("addr", []byte{0}, nil)
+	}
+	c := 1 + r.Intn(23)
+	if r.Chance(25) && len(f) > 25 {
+		c = 24 + r.Intn(len(f)-24)
+	}
+	if c >= len(f) {
+		c = len(f) - 1
+	}
+	g.emit("raw hex=" + hex.EncodeToString(f[:c]) + " nob=1")
+	g.emit("raw hex=" + hex.EncodeToString(f[c:]))
 }
 
 // hostile emits one malformed / hostile item (C15).
